@@ -24,6 +24,7 @@
 
 #include <jsoncons/config/compiler_support.hpp>
 #include <jsoncons/config/jsoncons_config.hpp>
+#include <jsoncons/json_exception.hpp>
 //#include <jsoncons/conversion_result.hpp>
 #include <jsoncons/utility/more_type_traits.hpp>
 
@@ -652,7 +653,7 @@ public:
         auto r = jsoncons::to_bigint(s, std::char_traits<CharT>::length(s), *this, alloc);
         if (r.ec != std::errc{})
         {
-            JSONCONS_THROW(std::system_error((int)r.ec, std::system_category()));
+            JSONCONS_THROW(json_runtime_error<std::invalid_argument>("Not a big integer"));
         }
     }
 
@@ -663,7 +664,7 @@ public:
         auto r = jsoncons::to_bigint(s, length, *this, alloc);
         if (r.ec != std::errc{})
         {
-            JSONCONS_THROW(std::system_error((int)r.ec, std::system_category()));
+            JSONCONS_THROW(json_runtime_error<std::invalid_argument>("Not a big integer"));
         }
     }
 
@@ -700,7 +701,7 @@ public:
         auto r = jsoncons::to_bigint(s.data(), s.size(), *this);
         if (r.ec != std::errc{})
         {
-            JSONCONS_THROW(std::system_error((int)r.ec, std::system_category()));
+            JSONCONS_THROW(json_runtime_error<std::invalid_argument>("Not a big integer"));
         }
     }
 
